@@ -262,6 +262,24 @@ func marshal(v any) (b []byte, pan string) {
 	return ttlv.MarshalTTLV(v), ""
 }
 
+// marshalReused encodes v with an encoder that has already written another message (all bits set) and was
+// cleared: the bytes must be those of a fresh encoder (padding and length fields are written, not assumed)
+var reused = ttlv.NewTTLVEncoder()
+
+func marshalReused(v any, size int) (b []byte, pan string) {
+	defer func() {
+		if r := recover(); r != nil {
+			pan = vh.PanicSig(r)
+			reused = ttlv.NewTTLVEncoder()
+		}
+	}()
+	reused.Clear()
+	reused.ByteString(0x420001, bytes.Repeat([]byte{0xFF}, size+72))
+	reused.Clear()
+	reused.Any(v)
+	return append([]byte(nil), reused.Bytes()...), ""
+}
+
 func TestReplay(t *testing.T) {
 	casesPath := vh.Env("VERIF_CASES", "")
 	if casesPath == "" {
@@ -291,6 +309,11 @@ func TestReplay(t *testing.T) {
 				bad("c03:encode-panic", pan)
 			} else if !bytes.Equal(got, spec) {
 				bad("c03:encoding-differs", map[string]any{"lib": fmt.Sprintf("%x", got), "spec": fmt.Sprintf("%x", spec)})
+			}
+			if got2, pan := marshalReused(treeToValue(c.Tree), len(spec)); pan != "" {
+				bad("c03:encode-panic-on-reused-encoder", pan)
+			} else if !bytes.Equal(got2, spec) {
+				bad("c03:encoding-differs-on-reused-encoder", map[string]any{"lib": fmt.Sprintf("%x", got2), "spec": fmt.Sprintf("%x", spec)})
 			}
 			// (b) the library's decoder on the specification's bytes
 			var v ttlv.Value
